@@ -100,11 +100,13 @@ type Input struct {
 	Cfg [4]bool  `json:"cfg,omitempty"`
 	Trs []string `json:"trs,omitempty"`
 	// e2e
-	E2E    *E2EInput    `json:"e2e,omitempty"`
-	Multi  *MultiInput  `json:"multi,omitempty"`
-	Switch *SwitchInput `json:"switch,omitempty"`
-	Stress *StressInput `json:"stress,omitempty"`
-	Raw    string       `json:"raw,omitempty"`
+	E2E        *E2EInput        `json:"e2e,omitempty"`
+	Multi      *MultiInput      `json:"multi,omitempty"`
+	Switch     *SwitchInput     `json:"switch,omitempty"`
+	Stress     *StressInput     `json:"stress,omitempty"`
+	Unobserved *UnobservedInput `json:"unobserved,omitempty"`
+	RTCPSize   *RTCPSizeInput   `json:"rtcpsize,omitempty"`
+	Raw        string           `json:"raw,omitempty"`
 }
 
 // Step is one pipeline operation.
@@ -1083,7 +1085,7 @@ func runCorpus(c *corr.Ctx) {
 				c.Note("corpus file " + filepath.Base(f) + ": " + e.Error())
 				continue
 			}
-			if (in.Kind == "e2e" || in.Kind == "multi" || in.Kind == "switch") && os.Getenv("VERIF_SEC_ONLY") == "unit" {
+			if (in.Kind == "e2e" || in.Kind == "multi" || in.Kind == "switch" || in.Kind == "unobserved" || in.Kind == "rtcpsize") && os.Getenv("VERIF_SEC_ONLY") == "unit" {
 				continue
 			}
 			replayNamed(c, &in, "corpus-"+strings.TrimSuffix(filepath.Base(f), ".json"))
